@@ -8,7 +8,7 @@ CONSTANTS
   DimSets <- %s
   ValLists <- %s
   AdjVals = {"u", "w"}
-  PermVals = {"u", "v", "w"}
+  PermVals = {"u", "w", ""}
   MaxAdj = %d
   Skips = {"absent", "null", "false", "true", "string"}
   ExtraDim = "z"
